@@ -141,6 +141,29 @@ pub(crate) mod prelude {
         }
     }
 
+    impl RecursionCheck {
+        pub(crate) fn enter_nested(
+            &mut self,
+            _levels: usize,
+        ) -> Result<(), super::error::CustomError> {
+            #[cfg(not(feature = "unbounded"))]
+            {
+                self.current += _levels;
+                if LIMIT <= self.current {
+                    return Err(super::error::CustomError::RecursionLimitExceeded);
+                }
+            }
+            Ok(())
+        }
+
+        pub(crate) fn exit_nested(&mut self, _levels: usize) {
+            #[cfg(not(feature = "unbounded"))]
+            {
+                self.current -= _levels;
+            }
+        }
+    }
+
     pub(crate) fn check_recursion<'b, O>(
         mut parser: impl ModalParser<Input<'b>, O, ContextError>,
     ) -> impl ModalParser<Input<'b>, O, ContextError> {
